@@ -556,94 +556,96 @@ func in_valname(v *val) string {
 
 // ruleFolds: ∀-folds of Valid and the Σ-fold of NumPoints.
 func (p *Program) ruleFolds(c *Check) {
-	forall := []struct{ pkg, typ string }{{"geometry", "baseSeries"}, {"geometry", "Poly"}, {"geojson", "MultiLineString"}, {"geojson", "MultiPolygon"}}
+	forall := []struct {
+		pkg, typ string
+		parts    []string // what must be asked: name fragments of the Valid(...) verdicts
+	}{{"geometry", "baseSeries", []string{".points["}}, {"geometry", "Poly", []string{".Exterior)", ".Holes["}},
+		{"geojson", "MultiLineString", []string{"children["}}, {"geojson", "MultiPolygon", []string{"children["}}}
+	// every other Valid method of the repository is a verdict the fold consults, not something to open
+	verdicts := map[*types.Func]bool{}
+	for _, d := range p.RepoDecls() {
+		if d.Name() == "Valid" {
+			verdicts[d] = true
+		}
+	}
 	for _, f := range forall {
 		fn := p.Method(f.pkg, f.typ, "Valid")
-		fd := p.Decl(fn)
-		con := FuncName(fn)
-		if fd == nil {
+		if fn == nil || p.Decl(fn) == nil {
 			c.Undecided("E10.forall", f.pkg+"."+f.typ+".Valid", "", "function not found")
 			continue
 		}
-		// a Valid that merely forwards to a helper is judged by the helper
-		for depth := 0; depth < 3; depth++ {
-			if len(fd.Body.List) != 1 {
-				break
+		opq := map[*types.Func]bool{}
+		for v := range verdicts {
+			if v != fn {
+				opq[v] = true
 			}
-			ret, ok := fd.Body.List[0].(*ast.ReturnStmt)
-			if !ok || len(ret.Results) != 1 {
-				break
-			}
-			call, ok := ast.Unparen(ret.Results[0]).(*ast.CallExpr)
-			if !ok {
-				break
-			}
-			callee, _ := typeutil.Callee(p.DeclPkg(fn).TypesInfo, call).(*types.Func)
-			if callee == nil || !p.IsRepoPkg(callee.Pkg()) || p.Decl(callee) == nil || callee.Name() == "Valid" && len(call.Args) == 0 && depth > 0 {
-				break
-			}
-			if sel, ok := call.Fun.(*ast.SelectorExpr); !ok || len(call.Args) != 0 || types.ExprString(sel.X) != fd.Recv.List[0].Names[0].Name {
-				break
-			}
-			fn, fd = callee, p.Decl(callee)
 		}
-		// every range loop tests its element; a failed test makes the result false; nothing resets it
-		loops, tested := 0, 0
-		flag := ""
-		resets := false
-		ast.Inspect(fd.Body, func(n ast.Node) bool {
-			rs, ok := n.(*ast.RangeStmt)
-			if !ok {
-				return true
-			}
-			loops++
-			el := types.ExprString(rs.Value)
-			for _, st := range rs.Body.List {
-				is, ok := st.(*ast.IfStmt)
-				if !ok || types.ExprString(is.Cond) != "!"+el+".Valid()" || len(is.Body.List) != 1 {
-					continue
-				}
-				switch b := is.Body.List[0].(type) {
-				case *ast.ReturnStmt:
-					if len(b.Results) == 1 && types.ExprString(b.Results[0]) == "false" {
-						tested++
-					}
-				case *ast.AssignStmt:
-					if len(b.Lhs) == 1 && types.ExprString(b.Rhs[0]) == "false" {
-						flag = types.ExprString(b.Lhs[0])
-						tested++
+		before := len(c.Obs)
+		required := f.parts
+		p.runE8(c, &e8row{id: FuncName(fn), fn: fn, opaque: opq, rangeMax: 2, maxBools: 16,
+			what: "valid exactly when every part (every point / the exterior and every hole / every child) reports itself valid — parts unrolled for up to two elements",
+			pre: func(a *e8assign, nm *e8names) bool {
+				for _, b := range nm.bools {
+					if v, ok := a.bools[b]; ok && v && strings.HasPrefix(b, "isnil(") {
+						return false // nil receivers and exteriors are the nil-guard rule's business
 					}
 				}
-			}
-			return true
-		})
-		if flag != "" {
-			ast.Inspect(fd.Body, func(n ast.Node) bool {
-				if as, ok := n.(*ast.AssignStmt); ok && as.Tok == token.ASSIGN && len(as.Lhs) == 1 && types.ExprString(as.Lhs[0]) == flag && types.ExprString(as.Rhs[0]) != "false" {
-					resets = true
-				}
 				return true
-			})
-		}
-		last := fd.Body.List[len(fd.Body.List)-1]
-		okRet := false
-		if ret, ok := last.(*ast.ReturnStmt); ok && len(ret.Results) == 1 {
-			r := types.ExprString(ret.Results[0])
-			okRet = r == "true" || (flag != "" && r == flag)
-		}
-		extra := true
-		if f.typ == "Poly" {
-			extra = false
-			ast.Inspect(fd.Body, func(n ast.Node) bool {
-				if is, ok := n.(*ast.IfStmt); ok && strings.Contains(types.ExprString(is.Cond), ".Exterior.Valid()") && strings.HasPrefix(types.ExprString(is.Cond), "!") {
-					extra = true
+			},
+			spec: func(a *e8assign, nm *e8names, out *e8out) string {
+				got, ok := retBool(out)
+				if !ok {
+					return "no boolean result"
 				}
-				return true
-			})
+				exists := func(atom string) bool {
+					// Valid(x[#j]) / Valid(x[j]): element j of slice x exists iff more(x)#0..j
+					i := strings.LastIndex(atom, "[")
+					if i < 0 || !strings.HasSuffix(atom, "])") {
+						return true
+					}
+					slice := strings.TrimPrefix(atom[:i], "Valid(")
+					idx := strings.Trim(atom[i+1:len(atom)-2], "#")
+					j := 0
+					fmt.Sscan(idx, &j)
+					for k := 0; k <= j; k++ {
+						name := fmt.Sprintf("more(%s)#%d", slice, k)
+						if v, ok := a.bools[name]; !ok || !v {
+							return false
+						}
+					}
+					return true
+				}
+				want, parts := true, 0
+				for _, b := range nm.bools {
+					if strings.HasPrefix(b, "Valid(") {
+						parts++
+						if exists(b) && !a.B(b) {
+							want = false
+						}
+					}
+				}
+				if parts == 0 {
+					return "no part is asked whether it is valid"
+				}
+				for _, need := range required {
+					found := false
+					for _, b := range nm.bools {
+						if strings.HasPrefix(b, "Valid(") && strings.Contains(b, need) {
+							found = true
+						}
+					}
+					if !found {
+						return "validity is not decided by asking the parts themselves (no verdict of …" + need + "… is consulted): a summary such as the bounding rectangle stands in for them"
+					}
+				}
+				if got != want {
+					return fmt.Sprintf("answers %v where the parts' verdicts give %v", got, want)
+				}
+				return ""
+			}})
+		for _, o := range c.Obs[before:] {
+			o.Rule = "E10.forall"
 		}
-		c.Expect(loops >= 1 && tested == loops && okRet && !resets && extra, "E10.forall", con, p.declPos(fn),
-			"valid iff every part is valid (each element tested, any failure makes the result false, nothing resets it)",
-			"Valid() is not the conjunction over all parts: an element is not tested, a failure is overwritten, or the final result ignores the tests")
 	}
 	fn := p.Method("geojson", "collection", "NumPoints")
 	fd := p.Decl(fn)
